@@ -243,7 +243,11 @@ func (e *Env) NewRig(cc ChanCfg, execDelay bool, handlers ...netty.Handler) *Rig
 		tr = transport.NewTransport(r.Conn, cc.RBuf, cc.WBuf)
 		r.Buffered = true
 	} else if cc.Wrap {
+		// (the wrapper's Flush is a no-op and its Writev hands the buffers to the connection one by one: as behind
+		// the buffering variants, bytes on the connection are flushed bytes and connection writes need not end on
+		// payload boundaries)
 		tr = transport.NewTransport(r.Conn, cc.RBuf, 0)
+		r.Buffered = true
 	}
 	r.Ch = cc.Factory()(1, r.Ctx, r.Pl, tr, r.X)
 	return r
